@@ -79,6 +79,17 @@ class Gen:
 
     def vec(self, ty, n, cls, nonzero=False):
         w = WIDTH[ty]
+        if cls == "extreme":
+            # small values with ONE extreme element at a seeded position (the position sweeps with the seed stream);
+            # integers: values straddling the sign bit; floats: +-inf, +-max, +-0
+            out = self.vec(ty, n, "small", nonzero)
+            if n:
+                p = self.r.below(n)
+                if ty[0] == "f":
+                    out[p] = self.r.choice((F32_SPECIAL if ty == "f32" else F64_SPECIAL)[:12])
+                else:
+                    out[p] = self.r.choice([(1 << (w - 1)) - 1, 1 << (w - 1), (1 << w) - 1, (1 << (w - 1)) + 1, (1 << w) - 2])
+            return out
         out = []
         for _ in range(n):
             if ty[0] == "f":
